@@ -38,7 +38,8 @@ def _mpow(r, beta):
     return p
 
 
-def h_tables(ctx, N, d):
+def h_tables(ctx, N, d, tol=None):
+    TOL = Fraction(tol) if tol is not None else globals()['TOL']
     algopy = symx.load_algopy()
     import algopy.exact_interpolation as ei
     J = ei.generate_multi_indices(N, d)
@@ -140,9 +141,25 @@ def units(tier, seed):
             if math.comb(N + d - 1, d) <= cap:
                 out.append(Unit('C15/tables N=%d d=%d' % (N, d), 'symx.props.c15', 'h_tables', {'N': N, 'd': d},
                                 {'property': PROP, 'validate': False}))
+    # high degrees (integer intermediates of the coefficient formula leave the int64 range at d = 16); the float
+    # table itself is only accurate to ~1e-8 (N=1) / ~1e-6 (N=2) there, hence the wider tolerance
+    for (N, d) in ([(1, 12), (1, 16), (1, 17), (2, 16)] if tier == 'quick' else [(1, 12), (1, 15), (1, 16), (1, 17), (1, 18), (2, 12), (2, 16), (2, 17)]):
+        out.append(Unit('C15/tables N=%d d=%d (tolerance 1e-4)' % (N, d), 'symx.props.c15', 'h_tables', {'N': N, 'd': d, 'tol': '1/10000'},
+                        {'property': PROP, 'validate': False}))
     for pairs in ([[(2, 2), (3, 1)], [(3, 2), (2, 5)], [(2, 3), (4, 1)], [(1, 2), (1, 1), (1, 3)]] if tier == 'quick' else
                   [[(2, 2), (3, 1)], [(3, 2), (2, 5), (6, 1)], [(2, 3), (4, 1)], [(3, 3), (4, 2)], [(1, 2), (1, 1), (1, 3)]]):
         out.append(Unit('C15/sequence %s' % pairs, 'symx.props.c15', 'h_sequence', {'pairs': pairs}, {'property': PROP, 'validate': False}))
+    # the consumers of the tables ("the product of Gamma with the d-th Taylor coefficients along the rays is the
+    # vector of partial derivatives"): init_tensor / extract_tensor end to end (harnesses of C09)
+    for (N, d) in ([(2, 3), (3, 2)] if tier == 'quick' else [(2, 3), (3, 2), (2, 4), (3, 3)]):
+        out.append(Unit('C15/consumer: extract_tensor(f(init_tensor))/N%d,d%d' % (N, d), 'symx.props.c09', 'h_tensor', {'N': N, 'd': d, 'm': d + 1},
+                        {'property': PROP, 'validate': False}))
+    for drv in ('tensor', 'tensor(list)', 'tensor(int32)'):
+        out.append(Unit('C15/consumer: %s at an integer-typed point' % drv, 'symx.props.c09', 'h_intpoint', {'driver': drv, 'N': 2},
+                        {'property': PROP, 'validate': False}))
+    for sc in ('3/100000000000000', '1/100000000000000000000'):
+        out.append(Unit('C15/consumer: program scaled by %s/N2,d3' % sc, 'symx.props.c09', 'h_tensor', {'N': 2, 'd': 3, 'm': 4, 'scale': sc},
+                        {'property': PROP, 'float_tol': 2e-4}))
     for N, d in ([(2, 3), (3, 2)] if tier == 'quick' else [(2, 3), (3, 2), (3, 3), (4, 2), (2, 5)]):
         out.append(Unit('C15/increment+binomial N=%d d=%d' % (N, d), 'symx.props.c15', 'h_increment', {'N': N, 'd': d},
                         {'property': PROP, 'validate': False}))
